@@ -371,6 +371,14 @@ def scope(ctx):
                         Gs |= reg
                     else:
                         Gn |= reg
+    # `match &requested_targets { Some(_) => .., None => .. }`: the arms of a match on the captured option itself
+    for e in ma.edges:
+        if e.label and e.label[0] == "variant" and e.label[2] in (("Some",), ("None",)) and e.label[3] and e.src in (Gc or set()) and \
+                (set(place_fields(e.label[3])) & req_names or origin_matches(edge_origin(ma, e), lambda x: x[0] == "field" and set(x[1]) & req_names)):
+            if e.label[2] == ("Some",):
+                Gs |= ma.dominated_by_edge(e)
+            else:
+                Gn |= ma.dominated_by_edge(e)
     n = 0
     # destructive sites: deletion API sites located in main's view, and calls (in main's view) of local fns that delete
     items = []
